@@ -126,7 +126,7 @@ func c03sig(style string, c corruption, what string) string {
 func TestC03(t *testing.T) {
 	rep := lib.NewReport("C03", "fault_enumeration")
 	defer rep.Finish(t)
-	rep.Rule = "(every read style on a fresh file system object, and the random-access reads repeated three rounds x twice on one file system object with prefetch 0 and 1) for objects of 1..6 leaves at L=64 (+ a second object in the store): every single-blob corruption (one-bit flip at every byte, all 8 bits of first/last byte; truncation to every length; 1-byte extension; deletion; replacement by every other blob) x every read style on a cold Fs (Read with 3 buffer sizes, ReadAt whole and per leaf, WriteTo plain writer, WriteTo WriterAt, io.Copy) and a full bundle download (core.Publish) into localfs and into a map store; oracle: error, or bytes identical to the original (streams: correct prefix before the error; destinations: no byte differs at its offset); distinct = distinct (object, blob, corruption) faults"
+	rep.Rule = "(every read style on a fresh file system object, every read style on a file system object whose cache was warmed by a complete read before the damage, and the random-access reads repeated three rounds x twice on one file system object with prefetch 0 and 1) for objects of 1..6 leaves at L=64 (+ a second object in the store): every single-blob corruption (one-bit flip at every byte, all 8 bits of first/last byte; truncation to every length; 1-byte extension; deletion; replacement by every other blob) x every read style on a cold Fs (Read with 3 buffer sizes, ReadAt whole and per leaf, WriteTo plain writer, WriteTo WriterAt, io.Copy) and a full bundle download (core.Publish) into localfs and into a map store; oracle: error, or bytes identical to the original (streams: correct prefix before the error; destinations: no byte differs at its offset); distinct = distinct (object, blob, corruption) faults"
 	L := 64
 	ctx := context.Background()
 	sizes := []int{1, 64, 65, 128, 200, 383, 384}
@@ -195,8 +195,15 @@ func TestC03(t *testing.T) {
 			p := prep[j.n]
 			st := p.st.Clone()
 			st.NoJournal = true
+			// a file system object that read the whole object successfully BEFORE the damage (its leaf cache is warm)
+			warm := newFs(st, L, 1, 0, 16)
+			if r, err := warm.GetAt(context.Background(), p.key); err == nil {
+				buf := make([]byte, j.n+1)
+				_, _ = r.ReadAt(buf, 0)
+			}
 			j.c.apply(st)
 			c03observe(rep, st, p.key, p.data, L, j.n, j.c)
+			c03observeWarm(rep, warm, p.key, p.data, j.n, j.c)
 			rep.Outcome(fmt.Sprintf("%d|%s|%s|%d|%s", j.n, j.c.Role, j.c.Kind, j.c.Arg, j.c.With))
 		}(j)
 	}
@@ -357,6 +364,61 @@ func c03observe(rep *lib.Report, st *lib.MemStore, key cafs.Key, data []byte, L,
 					rep.Violate(c03sig(style, c, "wrong-bytes-in-destination-with-error"), fmt.Sprintf("%s: destination byte %d altered (error %v)", desc(style)(), i, err), rp)
 					return
 				}
+			}
+		})
+	}
+}
+
+// c03observeWarm: every read style through a file system object whose cache was filled before the damage: what comes
+// from the store must still be verified (a cached good copy vouches only for itself).
+func c03observeWarm(rep *lib.Report, warm cafs.Fs, key cafs.Key, data []byte, n int, c corruption) {
+	ctx := context.Background()
+	rp := map[string]interface{}{"n": n, "corruption": c.String(), "blob": c.Blob, "cache": "warmed before the damage"}
+	desc := func(style string) func() string {
+		return func() string { return fmt.Sprintf("n=%d %s via %s on a file system object that had read the object before the damage", n, c, style) }
+	}
+	for _, style := range []string{"Read", "WriteTo-Writer", "io.Copy", "WriteTo-WriterAt", "ReadAt"} {
+		style := style
+		guard(rep, c03sig(style+"-warm-cache", c, "x"), desc(style), rp, func() {
+			rep.Eval(1)
+			var got []byte
+			var err error
+			switch style {
+			case "ReadAt":
+				r, e := warm.GetAt(ctx, key)
+				if e != nil {
+					return
+				}
+				buf := make([]byte, n+1)
+				k, e := r.ReadAt(buf, 0)
+				if e != nil && e != io.EOF {
+					return
+				}
+				got = buf[:max0(k)]
+			default:
+				r, e := warm.Get(ctx, key)
+				if e != nil {
+					return
+				}
+				switch style {
+				case "Read":
+					got, err = io.ReadAll(plainReader{r})
+				case "io.Copy":
+					var w plainWriter
+					_, err = io.Copy(&w, r)
+					got = w.buf.Bytes()
+				case "WriteTo-Writer":
+					var w plainWriter
+					_, err = r.(io.WriterTo).WriteTo(&w)
+					got = w.buf.Bytes()
+				case "WriteTo-WriterAt":
+					w := &trackWriterAt{}
+					_, err = r.(io.WriterTo).WriteTo(w)
+					got = w.buf
+				}
+			}
+			if err == nil && !bytes.Equal(got, data) {
+				rep.Violate(c03sig(style+"-warm-cache", c, "wrong-bytes-no-error"), fmt.Sprintf("%s: %d bytes differing from the original at %d, no error", desc(style)(), len(got), firstDiff(got, data)), rp)
 			}
 		})
 	}
